@@ -386,7 +386,16 @@ class DiagLayer:
                 # check if the message can be decoded as a global
                 # negative response for the service
                 gnr_found = False
+                request_prefix = b''
+                if service.request is not None:
+                    request_prefix = service.request.coded_const_prefix()
                 for gnr in self.global_negative_responses:
+                    # a global negative response only applies if
+                    # the message exhibits its constant prefix
+                    gnr_prefix = gnr.coded_const_prefix(request_prefix=request_prefix)
+                    if message[:len(gnr_prefix)] != gnr_prefix:
+                        continue
+
                     try:
                         decoded_gnr = gnr.decode(message)
                         gnr_found = True
